@@ -231,6 +231,7 @@ type runner struct {
 	mp        *modelProc
 	st        *eval.State
 	shrunk    int
+	bigOutput bool
 	regDiffs  []string
 	nSkip     int
 	nCompared int
@@ -416,6 +417,7 @@ func (r *runner) one(src string, kind string, feats map[string]bool) {
 		return
 	}
 	impl := runImpl(src, true)
+	r.bigOutput = len(impl.out) > 32768
 	line := caseLine(src, prog)
 	if impl.class == "P" && impl.val == "timeout" {
 		// does not end within the time limit (e.g. `for x = true {..}`): not a case
@@ -529,6 +531,9 @@ func (r *runner) shrink(src, pair string) string { return r.shrinkMode(src, pair
 func (r *runner) shrinkMode(src, pair string, noReg bool) string {
 	best := src
 	budget := 400
+	if r.bigOutput { // every candidate of a program that prints hundreds of KiB costs seconds: a short search is enough
+		budget = 40
+	}
 	for round := 0; round < 30; round++ {
 		prog, ok := parseProgram(best)
 		if !ok {
@@ -773,6 +778,7 @@ var corpus = []string{
 	`m={9223372036854775808.0:"big", 1:"one", 9223372036854775807:"max"}; for kv=m{print(kv.value,"")}; first(m).value`,
 	`[(-9223372036854775807-1) >= -9223372036854775808.0, (-9223372036854775807-1) > -9223372036854775808.0, -9223372036854777856.0 < (-9223372036854775807-1), 9223372036854774784.0 < 9223372036854775807, 9223372036854777856.0 > 9223372036854775807]`,
 	`[9007199254740993 > 9007199254740992.0, 9007199254740993 == 9007199254740992.0, 9007199254740993 < 9007199254740994.0, [9007199254740993] <= [9007199254740992.0], -9007199254740993 < -9007199254740992.0]`,
+	`table = func(n){for i = n {println("row", i, i*i)}; n}; a = table(6000); b = table(6000); println("done", a, b)`,
 	`f=func(a){a[0]/2}; x=[3,1,1,1,1,1,1,1,1,1]; y=[3.0,1,1,1,1,1,1,1,1,1]; println(x==y, f(x), f(y), f(x))`,
 	`f=func(m){[m[0]/2, m[0]==3]}; x={0:3,1:1,2:2,3:3,4:4}; y={0:3.0,1:1,2:2,3:3,4:4}; println(f(x), f(y))`,
 	`s = "a\xc2\xa0b"; println(len(s), [s], {"k\xe2\x80\x8bz": s}); println(["plain", "caf\xc3\xa9", "x\x7fy", "q\"t", "soft\xc2\xadhyphen"])`,
@@ -931,6 +937,54 @@ func (r *runner) matrix(thorough bool) int {
 }
 
 // ---------------------------------------------------------------------------------------------------
+// SIZE thresholds in the output path: one call (or one input) printing just below / just above 4 KiB, 64 KiB and
+// 1 MiB, as very many small prints, as a few large ones, and through nested calls that each print; the same call
+// is repeated with equal arguments (memoization is on: the remembered call must replay all of its output) and once
+// with a different argument.
+func (r *runner) outputSizes(thorough bool) int {
+	n := 0
+	emit := func(src string, tag string) {
+		r.one(src, "big-output", map[string]bool{"big-output": true, tag: true, "x": true})
+		n++
+	}
+	for _, T := range []int{4096, 65536, 1048576} {
+		for _, delta := range []int{-200, 300} {
+			if T == 1048576 && !thorough && delta < 0 {
+				continue
+			}
+			total := T + delta
+			// A: very many small prints ("row <i> <i*i>\n" is about 14 bytes; longer rows for the large sizes)
+			pad := ""
+			rowLen := 14
+			if total/rowLen > 9000 {
+				pad = strings.Repeat("p", total/9000)
+				rowLen += len(pad)
+			}
+			rows := total/rowLen + 1
+			emit(fmt.Sprintf("tb = func(n) {for i = n {println(\"row%s\", i, i * i)}; n}; a = tb(%d); b = tb(%d); c = tb(3); println(\"done\", a, b, c)", pad, rows, rows), "many-small")
+			// B: a few large prints
+			k := total/3 + 1
+			emit(fmt.Sprintf("bg = func(k) {s = \"x\" * k; print(s); println(s); print(s, \"\"); len(s)}; a = bg(%d); b = bg(%d); c = bg(5); println(\"done\", a, b, c)", k, k), "few-large")
+			if T == 1048576 && !thorough {
+				continue
+			}
+			// C: nested calls that each print; the outer call is repeated
+			half := rows / 2
+			emit(fmt.Sprintf("inner = func(n, t) {for i = n {println(t, i)}; n}; outer = func(n) {println(\"begin\"); x = inner(n, \"first%s\"); y = inner(n, \"first%s\"); z = inner(2, \"z\"); println(\"end\"); x + y + z}; [outer(%d), outer(%d), outer(1)]", pad, pad, half, half), "nested-calls")
+			// D: one input printing that much at top level, then a remembered call
+			emit(fmt.Sprintf("f = func(n) {println(\"f\", n); n}; f(1); for i = %d {println(\"row%s\", i, i * i)}; f(1); f(2)", rows, pad), "top-level")
+			// E: a recursive printer (every level prints, one remembered result per level)
+			if T <= 65536 {
+				lv := 40
+				per := total/lv + 1
+				emit(fmt.Sprintf("rp = func(d, s) {if d <= 0 {return 0}; println(d, s); 1 + rp(d - 1, s)}; w = \"y\" * %d; [rp(%d, w), rp(%d, w), rp(2, \"q\")]", per, lv, lv), "recursive")
+			}
+		}
+	}
+	return n
+}
+
+// ---------------------------------------------------------------------------------------------------
 // model-free oracle: an expression over global variables means the same inside a function
 func (r *runner) wrapOracle(g *gen) {
 	c := r.c
@@ -1009,10 +1063,11 @@ func runC01(c *Ctx) {
 	for _, src := range corpus {
 		r.one(src, "corpus", map[string]bool{"corpus": true, "a": true, "b": true})
 	}
-	nprog, nwrap := 7000, 1000
+	nprog, nwrap := 6000, 1000
 	if c.Thorough() {
 		nprog, nwrap = 60000, 5000
 	}
+	c.Extra["output_size_programs"] = r.outputSizes(c.Thorough())
 	nm := r.matrix(c.Thorough())
 	c.Extra["operator_pair_matrix_cases"] = nm
 	if c.Thorough() {
